@@ -179,6 +179,8 @@ pub fn recover_and_match(
         get_cap,
         cmp_mask: mask,
         steps: 0,
+        plain_reopen_every: 0,
+        reopens: 0,
     };
     let o = observe(sut.core(), get_cap);
     let mut first_diff: Option<(String, String)> = None;
